@@ -132,6 +132,12 @@ func c02Clone(c *Ctx, p *Prog) {
 	}
 	// nested: elements of Config — reference-typed fields of Config
 	cst := cfgT.Underlying().(*types.Struct)
+	var cst0 *types.Var // Result.Config
+	for i := 0; i < st.NumFields(); i++ {
+		if st.Field(i).Name() == "Config" {
+			cst0 = st.Field(i)
+		}
+	}
 	for i := 0; i < cst.NumFields(); i++ {
 		f := cst.Field(i)
 		if !isRefType(f.Type()) {
@@ -165,6 +171,12 @@ func c02Clone(c *Ctx, p *Prog) {
 				toClone := false
 				if lf, lb := loadOfField(ia.X); lf != nil && lf.Name() == "Config" && lb == obj {
 					toClone = true
+				}
+				// or into a fresh slice that becomes the clone's Config
+				for _, cs := range storesToFieldOf(obj, cst0) {
+					if cs.Val == ia.X {
+						toClone = true
+					}
 				}
 				// or into the argument array of an append that builds the clone's Config
 				if al, isAl := ia.X.(*ssa.Alloc); isAl {
